@@ -16,7 +16,7 @@ VERIF = os.path.dirname(os.path.dirname(os.path.abspath(__file__)))
 REPO = '/repo'
 SITES = '/tmp/mutsites.json'
 OUTDIR = os.path.join(VERIF, 'notes', 'mutcampaign')
-RESULTS = os.path.join(OUTDIR, 'results.json')
+RESULTS = os.environ.get('MUTRES', os.path.join(OUTDIR, 'results.json'))
 ENV = dict(os.environ, PATH='/opt/veriftools/go1.26.8/bin:' + os.environ['PATH'], GOTOOLCHAIN='local', GOPROXY='off', GOFLAGS='-mod=readonly')
 ENV.pop('GOWORK', None)
 
@@ -65,6 +65,9 @@ def run():
     ops = arg('-ops', '')
     if ops:
         sites = [s for s in sites if s['op'] in ops.split(',')]
+    only = arg('-only', '')  # restrict to sites whose file or function contains this text
+    if only:
+        sites = [s for s in sites if only in s['file'] or only in s['func']]
     j = int(arg('-j', '8'))
     os.makedirs(OUTDIR, exist_ok=True)
     res = {}
@@ -135,8 +138,21 @@ def suite():
     env.pop('GOWORK', None)
     t0 = time.time()
 
+    def cache_files(c):
+        out = set()
+        for root, _, files in os.walk(c):
+            for f in files:
+                out.add(os.path.join(root, f))
+        return out
+
     def worker():
         d = scratch()
+        # a private build cache, primed with the unmutated tree and pruned back to that state after every mutant:
+        # otherwise each mutant leaves its objects and test binaries behind (tens of MB each)
+        cache = d + '.gocache'
+        wenv = dict(env, GOCACHE=cache, GOFLAGS='-trimpath')
+        subprocess.run(['go', 'test', '-count=1', '-run', '^$', './...'], cwd=d, env=wenv, capture_output=True, text=True)
+        base = cache_files(cache)
         try:
             while True:
                 try:
@@ -145,8 +161,13 @@ def suite():
                     return
                 apply(r, d)
                 pkgs = ['./...']
-                p = subprocess.run(['go', 'test', '-count=1', '-timeout', '300s'] + pkgs, cwd=d, env=env, capture_output=True, text=True)
+                p = subprocess.run(['go', 'test', '-count=1', '-timeout', '300s'] + pkgs, cwd=d, env=wenv, capture_output=True, text=True)
                 restore(r, d)
+                for f in cache_files(cache) - base:
+                    try:
+                        os.remove(f)
+                    except OSError:
+                        pass
                 fails = [l for l in (p.stdout + p.stderr).splitlines() if l.startswith(('--- FAIL', 'FAIL', 'panic:'))]
                 with lock:
                     res[r['id']]['suite'] = 'pass' if p.returncode == 0 else 'fail'
@@ -156,6 +177,7 @@ def suite():
                     print(n, 'suite runs', '%.0fs' % (time.time() - t0), r['file'], r['line'], r['op'], res[r['id']]['suite'], flush=True)
         finally:
             shutil.rmtree(d, ignore_errors=True)
+            shutil.rmtree(cache, ignore_errors=True)
 
     ts = [threading.Thread(target=worker) for _ in range(j)]
     [t.start() for t in ts]
